@@ -126,6 +126,7 @@ def run(an: Analysis, rep):
     rep.rule("R16.2", "each source variable is used in the role of its option", 4)
     rep.rule("R16.3", "printed value, JSON value and re-encoded value are the same definition", 4)
     rep.rule("R16.4", "flag polarity", 4)
+    rep.run(r16f, an, rep)
     fn = an.prog.function("code_data._cli::main")
     m = fn.module
     opts = parser_options(an)
@@ -562,3 +563,157 @@ def run(an: Analysis, rep):
     rep.run(_jf.encode_fold_rule, an, shj)
     rep.run(_jf.constants_fold_rule, an, shj)
     rep.stats.update(an.stats([it]))
+
+
+def r16f(an: Analysis, rep, rule="R16.F"):
+    """The entry point folded over witness command lines (as the namespaces argparse hands over), with the outside world as symbols: compile /
+    eval / the file system / importlib / from_code / normalize / the console are stubs that record what they are asked to do.  Expected, from
+    the property: zero or several sources -> usage error; one source -> that program is compiled (file: its bytes under its own path; -c: the
+    text; -e: the value of the expression; -m: the loader's code), the API result for it is printed - normalized unless --no-normalize -, --json
+    prints to_json_data() of that same value, --dis-after disassembles to_code() of that same value, --dis disassembles the compiled code."""
+    from sa.feval import BlockOutcome, Obj, ObjEval
+    rep.rule(rule, "the entry point folded over witness command lines with the outside world as recording stubs", 3)
+    fn = an.prog.function("code_data._cli::main")
+    m = fn.module
+    opts = parser_options(an)
+    dests = sorted(opts)
+    sources = sorted(d for d, o in opts.items() if o["action"] is None)
+    flags = sorted(d for d, o in opts.items() if o["action"] == "store_true")
+    if set(sources) != {"file", "c", "e", "m"} or not {"dis", "dis_after", "json", "no_normalize", "source"} <= set(flags):
+        raise AnalysisError(f"{m.name}: the parser's options {dests} are not the ones the property names")
+    import itertools as _it
+
+    class UsageError(Exception):
+        pass
+
+    def run(ns):
+        out = []
+
+        def tok(kind, *a, **extra):
+            return Obj({"__cls__": kind, "args": a, **extra})
+
+        def code_tok(*a):
+            return tok("code", *a, co_consts=())
+
+        def data_tok(kind, *a):
+            t = tok(kind, *a)
+            t["to_json_data"] = lambda: tok("json_of", t)
+            t["to_code"] = lambda: code_tok("code_of", t)
+            t["normalize"] = lambda: data_tok("normalized", t)
+            return t
+
+        def usage(*a, **k):
+            raise UsageError()
+        spec = {"loader": {"get_code": lambda name: code_tok("loader.get_code", name), "get_source": lambda name: tok("loader.get_source", name)}}
+
+        def resolve(name):
+            f = m.functions.get(name)
+            return f.node if f is not None and f.cls is None and name != fn.name else None
+        extra = {
+            "parser": {"parse_args": lambda *a: ns, "error": usage, "exit": usage, "parse_known_args": lambda *a: (ns, [])},
+            "Console": lambda *a, **k: {"print": lambda *x, **kw: out.append(("print",) + x)},
+            "Syntax": lambda src, *a, **k: tok("syntax", src), "JSON": {"from_data": lambda d, **k: tok("rendered_json", d)},
+            "dumps": lambda d, **k: tok("rendered_json", d), "print": lambda *a, **k: None,
+            "eval": lambda e, *a: tok("value_of", e), "compile": lambda src, name, mode, *a, **k: code_tok("compile", src, name, mode),
+            "pathlib": {"Path": lambda f: {"read_bytes": lambda: tok("bytes_of", f), "read_text": lambda *a, **k: tok("text_of", f)}},
+            "open": lambda f, *a, **k: {"read": lambda: tok("text_of", f)},
+            "tokenize": {"open": lambda f: {"read": lambda: tok("text_of", f)}},
+            "importlib": {"util": {"find_spec": lambda name: Obj({"__cls__": "spec", "name": name, **spec})}},
+            "dis": {"dis": lambda c, **k: out.append(("dis", c)), "show_code": lambda c, **k: out.append(("show_code", c))},
+            "CodeData": {"from_code": lambda c: data_tok("from_code", c)},
+            "normalize": lambda d: data_tok("normalized", d),
+            "linesep": "\n", "CodeType": type(None), "SystemExit": SystemExit,
+            "sys": {"exit": usage, "argv": ["prog"], "stderr": None},
+        }
+        ev = ObjEval(resolve, extra=extra)
+        ev.module_assigns = {k: v for k, v in m.assigns.items() if k not in extra}
+        ev.MAX_ITER = 256
+        try:
+            ev.call_method(fn.node)
+        except UsageError:
+            return "usage error"
+        except BlockOutcome as o:
+            return f"stops at `{norm_src(o.node)[:60]}`"
+        return out
+    SRC = {"file": "./pkg/prog.py", "c": "x = 1", "e": "'y = ' + str(2)", "m": "pkg.mod"}
+    bad_usage, bad_run = [], []
+    n = 0
+
+    def ns_of(given, fl):
+        d = {k: None for k in sources}
+        d.update({k: SRC[k] for k in given})
+        d.update({k: (k in fl) for k in flags})
+        return Obj({"__cls__": "Namespace", **d})
+
+    def show(v, depth=0):
+        if isinstance(v, Obj):
+            a = ", ".join(show(x, depth + 1) for x in v.get("args", ()))
+            return f"{v.get('__cls__')}({a})"
+        return ascii(v)
+    try:
+        for k in (0, 2, 3, 4):
+            for given in _it.combinations(sources, k):
+                n += 1
+                r = run(ns_of(given, ()))
+                if r != "usage error":
+                    bad_usage.append(f"{'no source' if not given else 'sources ' + ', '.join(given)}: {'accepted' if isinstance(r, list) else r}")
+        # an empty program text is a source like any other
+        for given, empty in ((("c",), "c"), (("c", "file"), "c"), (("e", "m"), "e")):
+            n += 1
+            ns = ns_of(given, ())
+            ns[empty] = ""
+            r = run(ns)
+            want_err = len(given) != 1
+            if (r == "usage error") != want_err:
+                bad_usage.append(f"sources {', '.join(given)} with an empty text for -{empty}: {'usage error' if r == 'usage error' else 'accepted'}")
+        for src in sources:
+            for r_ in range(len(flags) + 1):
+                for fl in _it.combinations(flags, r_):
+                    n += 1
+                    got = run(ns_of((src,), fl))
+                    if not isinstance(got, list):
+                        bad_run.append(f"-{src} {' '.join('--' + f for f in fl)}: {got}")
+                        continue
+                    code = [x[1] for x in got if x[0] == "dis"]
+                    prints = [x[1] for x in got if x[0] == "print" and len(x) > 1]
+                    datas = [p for p in prints if isinstance(p, Obj) and p.get("__cls__") in ("from_code", "normalized")]
+                    why = None
+                    if len(datas) != 1:
+                        why = f"prints {len(datas)} CodeData values"
+                    else:
+                        d = datas[0]
+                        base = d["args"][0] if d["__cls__"] == "normalized" else d
+                        compiled = base["args"][0] if isinstance(base, Obj) and base.get("__cls__") == "from_code" else None
+                        exp_compile = {"file": ("compile", "bytes_of(%r)" % SRC["file"], SRC["file"], "exec"), "c": ("compile", SRC["c"], "<string>", "exec"),
+                                       "e": ("compile", "value_of(%r)" % SRC["e"], "<string>", "exec"), "m": ("loader.get_code", SRC["m"])}[src]
+                        got_compile = tuple(show(x) if isinstance(x, Obj) else x for x in compiled["args"]) if isinstance(compiled, Obj) else None
+                        if (d["__cls__"] == "normalized") != ("no_normalize" not in fl):
+                            why = f"prints the {'normalized' if d['__cls__'] == 'normalized' else 'un-normalized'} data"
+                        elif not (isinstance(base, Obj) and base.get("__cls__") == "from_code"):
+                            why = f"prints {show(d)}, not the API's result for the program"
+                        elif got_compile != exp_compile:
+                            why = f"decodes {show(compiled)}; the program of -{src} is {exp_compile}"
+                        js = [p for p in prints if isinstance(p, Obj) and p.get("__cls__") == "rendered_json"]
+                        if not why and (len(js) == 1) != ("json" in fl):
+                            why = f"{len(js)} JSON document(s) printed"
+                        if not why and js and not (isinstance(js[0]["args"][0], Obj) and js[0]["args"][0].get("__cls__") == "json_of" and js[0]["args"][0]["args"][0] is d):
+                            why = f"the JSON document is {show(js[0])}, not to_json_data() of the value that was printed ({show(d)})"
+                        want_dis = ([compiled] if "dis" in fl else []) + ([("code_of", d)] if "dis_after" in fl else [])
+                        got_dis = [c if not (isinstance(c, Obj) and c.get("args", (None,))[0] == "code_of") else ("code_of", c["args"][1]) for c in code]
+                        if not why and (len(got_dis) != len(want_dis) or any(not (g is w or (isinstance(g, tuple) and isinstance(w, tuple) and g[1] is w[1])) for g, w in zip(got_dis, want_dis))):
+                            why = f"disassembles {[show(c) for c in code]}; expected {'the compiled code' if 'dis' in fl else ''}{' and ' if len(want_dis) == 2 else ''}{'to_code() of the printed value' if 'dis_after' in fl else ''}"
+                        srcs = [p for p in prints if isinstance(p, Obj) and p.get("__cls__") == "syntax"]
+                        if not why and srcs and "source" not in fl:
+                            why = "prints the source without --source"
+                    if why:
+                        bad_run.append(f"-{src} {' '.join('--' + f for f in fl)}: {why}")
+    except AnalysisError:
+        raise
+    except Exception as ex:  # noqa: BLE001 - a gap of the evaluator, never a verdict
+        raise AnalysisError(f"{fn.qual}: not evaluable on the witness command lines ({type(ex).__name__}: {ex})")
+    rep.add(rule, f"{fn.qual}::zero or several sources are a usage error", not bad_usage, loc(m, fn.node),
+            "0, 2, 3, 4 sources (and an empty -c / -e text counted as a source): usage error exactly when the number of sources is not one" if not bad_usage else bad_usage[0] + (f" (+{len(bad_usage) - 1} more)" if len(bad_usage) > 1 else ""))
+    rep.add(rule, f"{fn.qual}::what is printed is the API's result for the program given", not bad_run, loc(m, fn.node),
+            f"4 sources x {2 ** len(flags)} flag combinations: the value printed, the JSON document and the re-encoded code are the API's results for the one program" if not bad_run else
+            bad_run[0] + (f" (+{len(bad_run) - 1} more)" if len(bad_run) > 1 else ""))
+    rep.add(rule, "witness command lines folded", True, "code_data/_cli.py", f"{n} namespaces", nontrivial=False)
